@@ -14,7 +14,7 @@ META = {
              ".word, (rN) / @rN) assembles to the same outcome, base and bytes as the canonical spelling for ALL operand values and bases",
     "technique": "CrossHair symbolic execution of both spellings in one harness (the whole parser runs concretely on both texts, the whole "
                  "compiler on both token trees with shared symbolic values); z3 decides image equality for all values",
-    "bounds": "catalogue of 34 statements using every operand form and directive; 14 rewrite rules each applied alone to every statement they "
+    "bounds": "catalogue of 40 statements using every operand form and directive; 14 rewrite rules each applied alone to every statement they "
               "touch + seeded compositions of 2..4 rules on 3..6-statement programs (quick 60, thorough 600); values: |X| < 2^16, bytes < 2^8, "
               "base even",
     "outside": ["WHICH spellings are compared is enumeration (the text is concrete for the regex parser): a spelling nobody enumerated is not "
@@ -31,6 +31,8 @@ CATALOGUE = [
     "x1 = {X} + N[2]", "mov #x1, @#x1", "trap {V}", "mov #G( {X} + N[3] G) * N[2], r0", ".word G( N[5] - {X} G) / N[3]",
     "mov #0x1f + {X}, r2", "mov #^x1f, r3", "mov #^o17 + ^b101 + ^d19, r4", "bis #^c{X}, r5", "xor r1, D(r3)", "rts pc", "mov sp, pc",
     "mov N[10](sp), N[2](pc)", "sub: tst D(r0)", ".word lab - sub, x1", "bcs lab", "emt N[377]", "spl N[5]", ".dword {X}",
+    "tbl: .word {X}, ., . - tbl, lab - .", "mov #-N[5], r0", "tb2: .word -N[17] + {X}, -N[1]", "add #-N[2], D(r0)", "mov -N[4](r2), r3",
+    "mov #G( -N[3] + {X} G), r1",
 ]
 SYNONYMS = {"bcs": "blo", "bcc": "bhis", "trap": "sys", "jsr pc,": "call", "rts pc": "ret", "clnzvc": "ccc", "ldf": "ldd", "stf": "std"}
 
@@ -131,6 +133,8 @@ def needs(stmts):
         extra.append("lab: .word {X}, lab, N[17]")
     if re.search(r"\bsub\b", text) and not re.search(r"^sub:", text, re.M):
         extra.append("sub: tst D(r0)")
+    if re.search(r"\blab\b", text) and not re.search(r"^lab:", "\n".join(stmts + extra), re.M):
+        extra.append("lab: .word {X}, lab, N[17]")
     if re.search(r"\bx1\b", text) and not re.search(r"^x1 =", text, re.M):
         extra.append("x1 = {X} + N[2]")
     return extra
